@@ -22,6 +22,13 @@ type ChildResult struct {
 	Err      error
 }
 
+// BuildDir is the scratch build directory of this check invocation
+// (/verif/build, or a per-worktree directory when VERIF_REPO points elsewhere).
+func BuildDir() string { return envOr("VERIF_BUILD_DIR", "/verif/build") }
+
+// RepoDir is the sdns tree this binary was built from.
+func RepoDir() string { return envOr("VERIF_REPO", "/repo") }
+
 // BinPath returns the path of a harness binary built by ./check
 // (variant "" = plain, "race", "asan").
 func BinPath(pkg, variant string) string {
@@ -37,7 +44,7 @@ func BinPath(pkg, variant string) string {
 // ended. wrap, if non-nil, is prepended to the command line (e.g. strace args).
 // The child's stdout/stderr go to a log file under build/logs.
 func (r *Run) Child(name string, wrap []string, bin string, args []string, env []string, timeout time.Duration) ChildResult {
-	logDir := filepath.Join(r.Dir, "build", "logs")
+	logDir := filepath.Join(BuildDir(), "logs")
 	_ = os.MkdirAll(logDir, 0o755)
 	stateF, err := os.CreateTemp(logDir, "child-"+r.ID+"-*.state")
 	if err != nil {
@@ -174,7 +181,7 @@ func RaceEnv(prefix string) string {
 
 // RacePrefix returns a fresh log prefix under build/race for this run.
 func (r *Run) RacePrefix(name string) string {
-	d := filepath.Join(r.Dir, "build", "race")
+	d := filepath.Join(BuildDir(), "race")
 	_ = os.MkdirAll(d, 0o755)
 	return filepath.Join(d, fmt.Sprintf("%s-%s-%d", r.ID, sanitize(name), os.Getpid()))
 }
